@@ -538,7 +538,8 @@ def replay_gc_cli():
         if wrong or crashed:
             return True, dict(program=prog, nlive=n, real_output=txt[:1200], exit_code=rc, tried=tried,
                               expected="bad=0 (every popped element was pushed with v == NLIVE-1 and is reachable from `arr`)")
-    return False, dict(tried=tried, program=PROG_POP)
+    # canned programs: not reproducing says nothing about the verifier's counterexample
+    return None, dict(tried=tried, program=PROG_POP)
 
 
 def replay_leak_cli():
